@@ -71,6 +71,18 @@ impl From<Span> for miette::SourceSpan {
     }
 }
 
+/// A parse error located at the given pair (for syntax the grammar accepts but the parser can not
+/// turn into an AST).
+pub(crate) fn error_at(pair: &Pair<Rule>, message: impl Into<String>) -> Error {
+    pest::error::Error::<Rule>::new_from_span(
+        pest::error::ErrorVariant::CustomError {
+            message: message.into(),
+        },
+        pair.as_span(),
+    )
+    .into()
+}
+
 pub trait AstNode: Sized {
     const RULE: Rule;
 
@@ -1121,7 +1133,12 @@ impl AstNode for MapConstructor {
 
 impl DataExpr {
     fn number_parse(pair: Pair<Rule>) -> Result<Self, Error> {
-        Ok(DataExpr::Number(pair.as_str().parse().unwrap()))
+        let value = pair
+            .as_str()
+            .parse()
+            .map_err(|_| error_at(&pair, "number literal out of range"))?;
+
+        Ok(DataExpr::Number(value))
     }
 
     fn bool_parse(pair: Pair<Rule>) -> Result<Self, Error> {
@@ -1444,7 +1461,10 @@ impl AstNode for VariantCase {
     fn parse(pair: Pair<Rule>) -> Result<Self, Error> {
         let case = match pair.as_rule() {
             Rule::variant_case_struct => Self::struct_case_parse(pair),
-            Rule::variant_case_tuple => todo!("parse variant case tuple"),
+            Rule::variant_case_tuple => Err(error_at(
+                &pair,
+                "tuple variant cases are not supported yet",
+            )),
             Rule::variant_case_unit => Self::unit_case_parse(pair),
             x => unreachable!("Unexpected rule in datum_variant: {:?}", x),
         }?;
@@ -1494,6 +1514,7 @@ impl AstNode for ChainSpecificBlock {
                 let block = crate::cardano::CardanoBlock::parse(block)?;
                 Ok(ChainSpecificBlock::Cardano(block))
             }
+            Rule::bitcoin_block => Err(error_at(&block, "bitcoin blocks are not supported yet")),
             x => unreachable!("Unexpected rule in chain_specific_block: {:?}", x),
         }
     }
